@@ -294,7 +294,7 @@ var _ = io.EOF
 func TestC06(t *testing.T) {
 	r := rep.New(t, "C06")
 	defer r.Flush()
-	r.Rule("PRNG server option combinations (ping interval/timeout, max payload, transport set, allowUpgrades, allowEIO3, initial packet text/binary/absent, cookie) x 3-5 handshakes per server over polling/JSONP/WebSocket/WebTransport with EIO=4, 3 or absent and b64; oracle: one connection event and one registry entry per admitted handshake, open packet JSON == configuration (upgrades as a set), initial packet first message of EVERY session with its kind, Protocol() and heartbeat mode per revision, revision 3 refused when disallowed; distinct = option/session signature")
+	r.Rule("PRNG server option combinations (ping interval/timeout, max payload, transport set, allowUpgrades, allowEIO3, initial packet text/binary/absent, cookie) x 3-5 handshakes per server over polling/JSONP/WebSocket/WebTransport with EIO=4, 3, absent or given twice with different values (must resolve to ONE revision for admission, Protocol() and payload format) and b64; oracle: one connection event and one registry entry per admitted handshake, open packet JSON == configuration (upgrades as a set), initial packet first message of EVERY session with its kind, Protocol() and heartbeat mode per revision, revision 3 refused when disallowed; distinct = option/session signature")
 	n := r.N(2400, 400000)
 	for i := 0; i < n; i++ {
 		if !r.Only(i) {
